@@ -59,6 +59,10 @@ pub enum Op {
     /// owner / issuer, the token's minter, the gas collector, a spender; `how`: transfer_from / burn_from as spender
     /// (the service never approved anyone), or transfer / burn naming the service as holder but signed by `who` alone
     ThirdPartyPull { who: u8, token: u8, how: u8, all: bool },
+    /// a payment / top-up that names the gas service itself as the spender (`sender_too`: and as the sender), signed by
+    /// nobody (`signed` false) or by a stranger for exactly this call: no funds can come in that way, so if the service
+    /// accepts and reports it as a payment its books no longer match its balance
+    PayAsService { token: u8, amount: Amt, add: bool, sender_too: bool, signed: bool },
 }
 
 #[derive(Clone, Debug, Serialize, Deserialize)]
@@ -88,6 +92,7 @@ fn op() -> impl Strategy<Value = Op> {
         1 => Just(Op::UpgradeAndMigrate),
         1 => (1u8..90).prop_map(Op::AdvanceDays),
         2 => (0u8..5, 0u8..3, 0u8..4, any::<bool>()).prop_map(|(who, token, how, all)| Op::ThirdPartyPull { who, token, how, all }),
+        1 => (0u8..3, amt(), any::<bool>(), any::<bool>(), any::<bool>()).prop_map(|(token, amount, add, sender_too, signed)| Op::PayAsService { token, amount, add, sender_too, signed }),
     ]
 }
 
@@ -248,9 +253,48 @@ impl Property for C14 {
                 ensure_p!(snapshot(&env) == snap0, "step {}: refused {} on the service's custody changed the ledger", step, f);
                 continue;
             }
+            if let Op::PayAsService { token, amount, add, sender_too, signed } = op {
+                // (not the unchecked harness token: it lets anybody move anything)
+                let ti = *token as usize % 3;
+                let a = resolve(*amount, held[ti]);
+                let tok = Token { address: tokens[ti].clone(), amount: a };
+                let snd = if *sender_too { gas.id.clone() } else { sender.clone() };
+                let payload = seeded_bytes(step as u64, 40);
+                let args: soroban_sdk::Vec<soroban_sdk::Val> = if *add {
+                    (snd.clone(), sstr(&env, "msg-id"), gas.id.clone(), tok.clone()).into_val(&env)
+                } else {
+                    (snd.clone(), sstr(&env, "dest-chain"), sstr(&env, "dest-addr"), Bytes::from_slice(&env, &payload), gas.id.clone(), tok.clone(), Bytes::from_slice(&env, &[9, 9])).into_val(&env)
+                };
+                let f = if *add { "add_gas" } else { "pay_gas" };
+                let inv = MockAuthInvoke { contract: &gas.id, fn_name: f, args: args.clone(), sub_invokes: &[] };
+                if *signed {
+                    env.mock_auths(&[MockAuth { address: &stranger, invoke: &inv }]);
+                } else {
+                    env.mock_auths(&[]);
+                }
+                let snap0 = snapshot(&env);
+                let ev0 = events_len(&env);
+                let r = env.try_invoke_contract::<soroban_sdk::Val, soroban_sdk::Error>(&gas.id, &soroban_sdk::Symbol::new(&env, f), args);
+                let ok = matches!(r, Ok(Ok(_)));
+                cx.count("must_fail");
+                if held[ti] > 0 {
+                    cx.label("payment_naming_the_service_itself_as_spender_while_it_holds_funds");
+                }
+                ensure_p!(
+                    !ok,
+                    "step {} {:?}: the service accepted (and reported) a payment of {} of token {} whose spender is the service itself, authorised by {}: nothing was paid in, so reported payments - payouts no longer equal its balance",
+                    step,
+                    op,
+                    a,
+                    ti,
+                    if *signed { "a stranger" } else { "nobody" }
+                );
+                ensure_p!(snapshot(&env) == snap0 && events_len(&env) == ev0, "step {} {:?}: refused call changed the ledger or emitted events", step, op);
+                continue;
+            }
             let ti = match op {
                 Op::Pay { token, .. } | Op::Add { token, .. } | Op::Collect { token, .. } | Op::Refund { token, .. } => *token as usize % NT,
-                Op::TransferOwnership | Op::UpgradeAndMigrate | Op::AdvanceDays(_) | Op::ThirdPartyPull { .. } => unreachable!(),
+                Op::TransferOwnership | Op::UpgradeAndMigrate | Op::AdvanceDays(_) | Op::ThirdPartyPull { .. } | Op::PayAsService { .. } => unreachable!(),
             };
             let taddr = tokens[ti].clone();
             touched[ti] = true;
@@ -273,7 +317,7 @@ impl Property for C14 {
             match (op, by) {
                 (Op::Pay { .. } | Op::Add { .. }, _) | (_, By::Collector) => env.mock_all_auths(),
                 (_, By::Nobody) => env.mock_auths(&[]),
-                (Op::TransferOwnership, _) | (Op::UpgradeAndMigrate, _) | (Op::AdvanceDays(_), _) | (Op::ThirdPartyPull { .. }, _) => unreachable!(),
+                (Op::TransferOwnership, _) | (Op::UpgradeAndMigrate, _) | (Op::AdvanceDays(_), _) | (Op::ThirdPartyPull { .. }, _) | (Op::PayAsService { .. }, _) => unreachable!(),
                 (Op::Collect { receiver, amount, .. }, b) => {
                     let a = resolve(if ti == SLOPPY && *amount == Amt::Max { Amt::BalPlus1 } else { *amount }, held[ti]);
                     let who = if b == By::Stranger { &stranger } else { &owner_now };
@@ -357,7 +401,7 @@ impl Property for C14 {
                         payout = true;
                     }
                 }
-                Op::TransferOwnership | Op::UpgradeAndMigrate | Op::AdvanceDays(_) | Op::ThirdPartyPull { .. } => unreachable!(),
+                Op::TransferOwnership | Op::UpgradeAndMigrate | Op::AdvanceDays(_) | Op::ThirdPartyPull { .. } | Op::PayAsService { .. } => unreachable!(),
                 Op::Refund { by, receiver, amount: a, .. } => {
                     let ri = *receiver as usize % NR;
                     amount = resolve(if ti == SLOPPY && *a == Amt::Max { Amt::BalPlus1 } else { *a }, held[ti]);
